@@ -1,5 +1,6 @@
 import PasetoModel.Base64Lit
-import PasetoModel.Ffi
+import PasetoModel.FfiLemmas
+import PasetoModel.Extracted.Ffi
 import PasetoModel.PaserkInst
 import PasetoModel.Forms
 import PasetoModel.Props.C01
@@ -236,6 +237,55 @@ theorem ffi_paths_balanced : Ffi.allFns.all Ffi.Fn.ok = true := by decide
     (the model is not vacuous) -/
 theorem ffi_checker_detects_missing_detach :
     ({ Ffi.signatureFromBytes with body := Ffi.signatureFromBytes.body.take 4 } : Ffi.Fn).ok = false := by decide
+
+/-! ### the same check on the action lists *translated from the current source* (`tools/ffiscan.py` →
+    `Extracted/Ffi.lean`, regenerated on every run).  The translator treats every aws-lc call as a possible exit (`?`,
+    `return Err`, or an unwinding panic), so the obligation does not depend on how errors are propagated. -/
+
+/-- every function of the current `lc/mod.rs`, every exit point: nothing freed twice, used after being freed,
+    leaked, or returned after being freed -/
+theorem extracted_ffi_paths_balanced : Extracted.Ffi.fns.all Ffi.Fn.ok = true := by decide
+
+/-- what the balance check *means* (soundness of the checker, `FfiLemmas.lean`): in every function of the current
+    `lc/mod.rs`, whichever aws-lc call fails (or none), no object is released twice, and every object still allocated
+    when the function is left is owned by the value it returns -/
+theorem extracted_ffi_no_double_free_no_leak (f : Ffi.Fn) (hf : f ∈ Extracted.Ffi.fns) (failAt : Option Nat) :
+    (Ffi.run f failAt).frees.Nodup ∧
+    ∀ r ∈ (Ffi.run f failAt).live, f.returns.contains r = true ∨
+      (Ffi.run f failAt).children.any (fun c => c.1 == r && f.returns.contains c.2) = true := by
+  have h := extracted_ffi_paths_balanced
+  rw [List.all_eq_true] at h
+  exact Ffi.ok_sound_all f (h f hf) failAt
+
+/-- every aws-lc function the current `lc/mod.rs` calls is one whose ownership behaviour the translator knows -/
+theorem extracted_ffi_calls_classified : Extracted.Ffi.unclassified = [] := by decide
+
+/-- the translation is not empty and covers the functions of the hand-written model -/
+theorem extracted_ffi_covers :
+    ["SigningKey::from_sec1_bytes", "Signature::from_bytes", "SigningKey::sign", "VerifyingKey::verify",
+     "VerifyingKey::from_sec1_bytes", "<SigningKey as Clone>::clone", "<VerifyingKey as Clone>::clone",
+     "SigningKey::diffie_hellman", "Signature::append_to_vec"].all
+      (fun n => (Extracted.Ffi.fns.map (·.name)).contains n) = true := by decide
+
+/-- the wrappers of the current `lc/ptr.rs` have the semantics the checker assumes: `LcPtr` frees on drop,
+    `DetachableLcPtr` frees on drop iff not detached, `detach` releases nothing, and each pointee type is released
+    with its own aws-lc function -/
+theorem ffi_wrappers_as_modelled :
+    Extracted.Ffi.managedDropFrees = true ∧ Extracted.Ffi.detachableDropFreesIffPresent = true ∧
+    Extracted.Ffi.detachTakes = true ∧ Extracted.Ffi.aliasesAsModelled = true ∧
+    Extracted.Ffi.macroFreeCallsGiven = true ∧
+    Extracted.Ffi.freeTable = [("u8", "OPENSSL_free"), ("EC_GROUP", "EC_GROUP_free"), ("EC_POINT", "EC_POINT_free"),
+      ("EC_KEY", "EC_KEY_free"), ("ECDSA_SIG", "ECDSA_SIG_free"), ("BIGNUM", "BN_free")] := by decide
+
+/-- the extended checker is not vacuous: forgetting the DER buffer in `verify`, a raw release of a wrapped key, and an
+    early `drop` followed by a use are each rejected -/
+theorem ffi_checker_detects_forget_rawfree_earlydrop :
+    ({ name := "verify+forget", borrowed := [0, 1, 2],
+       body := [.call [2] true, .allocRaw 3, .adopt 3 false, .call [1, 3, 0] true, .detach 3], returns := [] } : Ffi.Fn).ok = false ∧
+    ({ name := "from_point+EC_KEY_free", borrowed := [0, 1],
+       body := [.alloc 2 false, .call [2, 0] true, .call [2, 1] true, .rawFree 2], returns := [2] } : Ffi.Fn).ok = false ∧
+    ({ name := "drop(bn) then use", borrowed := [],
+       body := [.alloc 1 false, .dropNow 1, .call [1] true], returns := [] } : Ffi.Fn).ok = false := by decide
 
 /-- `append_to_vec`: `set_len(len + 96)` happens only after both 48-byte writes succeeded, within
     the reserved capacity and over fully initialised bytes; on failure the length is unchanged -/
